@@ -64,6 +64,9 @@ def dropBytes : Nat → List Char → List Char
   | _ + 1, [] => []
   | k + 1, c :: cs => dropBytes (k + 1 - c.utf8Size) cs
 
+@[simp] theorem dropBytes_zero (cs : List Char) : dropBytes 0 cs = cs := by
+  cases cs <;> simp [dropBytes]
+
 theorem go_eq_dropBytes (k : Nat) (cs : List Char) : go k cs = go 0 (dropBytes k cs) := by
   induction cs generalizing k with
   | nil => cases k <;> simp [go, dropBytes]
@@ -83,5 +86,123 @@ theorem decode_backslash (cs : List Char) :
   simp only [decode, go]
   rw [go_eq_dropBytes]
   simp
+
+/-! ### well-formed input: token by token -/
+
+/-- the tokens of a well-formed string literal body -/
+inductive Tok where
+  | plain (c : Char)            -- any character other than a backslash
+  | bs                          -- `\\\\`
+  | quote                       -- `\\"`
+  | u (ds : List Char)          -- `\\uXXXX`
+  | U (ds : List Char)          -- `\\UXXXXXX`
+
+def Tok.Valid : Tok → Prop
+  | .plain c => c ≠ '\\'
+  | .bs => True
+  | .quote => True
+  | .u ds => ds.length = 4 ∧ ds.all isHex = true
+  | .U ds => ds.length = 6 ∧ ds.all isHex = true
+
+/-- source text of a token -/
+def Tok.text : Tok → List Char
+  | .plain c => [c]
+  | .bs => ['\\', '\\']
+  | .quote => ['\\', '"']
+  | .u ds => '\\' :: 'u' :: ds
+  | .U ds => '\\' :: 'U' :: ds
+
+/-- what the token denotes -/
+def Tok.value : Tok → List Char
+  | .plain c => [c]
+  | .bs => ['\\']
+  | .quote => ['"']
+  | .u ds => [scalarOr (hexNum ds)]
+  | .U ds => [scalarOr (hexNum ds)]
+
+theorem isHex_utf8Size (c : Char) (h : isHex c = true) : c.utf8Size = 1 := by
+  have hle : c.val ≤ 0x7f := by
+    simp only [isHex, Bool.or_eq_true, Bool.and_eq_true, decide_eq_true_eq] at h
+    have e : ∀ a b : Char, a ≤ b ↔ a.val.toNat ≤ b.val.toNat := by
+      intro a b; rw [Char.le_def, UInt32.le_iff_toNat_le]
+    simp only [e] at h
+    rw [UInt32.le_iff_toNat_le]
+    have : ('0' : Char).val.toNat = 48 := rfl
+    have : ('9' : Char).val.toNat = 57 := rfl
+    have : ('a' : Char).val.toNat = 97 := rfl
+    have : ('f' : Char).val.toNat = 102 := rfl
+    have : ('A' : Char).val.toNat = 65 := rfl
+    have : ('F' : Char).val.toNat = 70 := rfl
+    have : (0x7f : UInt32).toNat = 127 := rfl
+    omega
+  simp [Char.utf8Size, hle]
+
+/-- dropping exactly the bytes of a run of hex digits -/
+theorem dropBytes_hex (ds rest : List Char) (h : ds.all isHex = true) :
+    dropBytes ds.length (ds ++ rest) = rest := by
+  induction ds with
+  | nil => simp
+  | cons d ds ih =>
+    simp only [List.all_cons, Bool.and_eq_true] at h
+    have h1 := isHex_utf8Size d h.1
+    show dropBytes (ds.length + 1 - d.utf8Size) (ds ++ rest) = rest
+    rw [h1]
+    exact ih h.2
+
+theorem hexEscape_wf (n : Nat) (ds rest : List Char) (hl : ds.length = n) (hh : ds.all isHex = true) :
+    hexEscape n (ds ++ rest) = scalarOr (hexNum ds) := by
+  have : (ds ++ rest).take n = ds := by rw [← hl]; simp
+  unfold hexEscape
+  rw [this, if_pos ⟨hl, hh⟩]
+
+theorem decode_tok (t : Tok) (ht : t.Valid) (rest : List Char) :
+    decode (t.text ++ rest) = t.value ++ decode rest := by
+  cases t with
+  | plain c => exact decode_cons_plain ht rest
+  | bs =>
+    show decode ('\\' :: '\\' :: rest) = _
+    rw [decode_backslash]
+    have e : dropBytes (escLen ('\\' :: rest)) ('\\' :: rest) = rest := by
+      show dropBytes (0 + 1 - 1) rest = rest
+      simp
+    rw [e]; rfl
+  | quote =>
+    show decode ('\\' :: '"' :: rest) = _
+    rw [decode_backslash]
+    have e : dropBytes (escLen ('"' :: rest)) ('"' :: rest) = rest := by
+      show dropBytes (0 + 1 - 1) rest = rest
+      simp
+    rw [e]; rfl
+  | u ds =>
+    obtain ⟨hl, hh⟩ := ht
+    show decode ('\\' :: 'u' :: (ds ++ rest)) = _
+    rw [decode_backslash]
+    have e1 : escChar ('u' :: (ds ++ rest)) = scalarOr (hexNum ds) := by
+      show hexEscape 4 (ds ++ rest) = _
+      exact hexEscape_wf 4 ds rest hl hh
+    have e2 : dropBytes (escLen ('u' :: (ds ++ rest))) ('u' :: (ds ++ rest)) = rest := by
+      show dropBytes (4 + 1 - 1) (ds ++ rest) = rest
+      rw [← hl]; exact dropBytes_hex ds rest hh
+    rw [e1, e2]; rfl
+  | U ds =>
+    obtain ⟨hl, hh⟩ := ht
+    show decode ('\\' :: 'U' :: (ds ++ rest)) = _
+    rw [decode_backslash]
+    have e1 : escChar ('U' :: (ds ++ rest)) = scalarOr (hexNum ds) := by
+      show hexEscape 6 (ds ++ rest) = _
+      exact hexEscape_wf 6 ds rest hl hh
+    have e2 : dropBytes (escLen ('U' :: (ds ++ rest))) ('U' :: (ds ++ rest)) = rest := by
+      show dropBytes (6 + 1 - 1) (ds ++ rest) = rest
+      rw [← hl]; exact dropBytes_hex ds rest hh
+    rw [e1, e2]; rfl
+
+/-- a concatenation of plain characters and well-formed escapes decodes token by token -/
+theorem decode_tokens (ts : List Tok) (h : ∀ t ∈ ts, t.Valid) :
+    decode (ts.flatMap Tok.text) = ts.flatMap Tok.value := by
+  induction ts with
+  | nil => rfl
+  | cons t ts ih =>
+    simp only [List.flatMap_cons]
+    rw [decode_tok t (h t (List.mem_cons_self)), ih (fun t' ht' => h t' (List.mem_cons_of_mem _ ht'))]
 
 end FluentProofs.UnescapeSpec
